@@ -3,24 +3,46 @@
  * [0, n); a value at position p lies in bin b iff t_{b-1} <= v_p < t_b (counting rule: >= threshold goes right). */
 #include "nv_tensor.h"
 #include <stdlib.h>
+#ifdef NV_ELEM
+/* integer elements: the conversion to double is kept uninterpreted (a function of the integer): enough for the
+ * protocol, nothing is bit-blasted */
+double __CPROVER_uninterpreted_i2d(int64_t);
+#define NV_TOD(x) __CPROVER_uninterpreted_i2d(x)
+#else
+#define NV_TOD(x) (x)
+#endif
+#ifndef NV_ELEM
+#define NV_ELEM double        /* element type of the value list: double (default) or int64_t (integer-valued lists) */
+#endif
 struct nv_histogram { struct nv_t1d m_thresholds; struct nv_t1d m_bin_means; struct nv_t1i m_bin_counts; struct nv_t1d m_bin_medians; };
-double* nv_base; int64_t nv_n;      /* ghost: the sorted values [nv_base, nv_base + nv_n) */
+NV_ELEM* nv_base; int64_t nv_n;      /* ghost: the sorted values [nv_base, nv_base + nv_n) */
 int64_t nv_bo, nv_eo;                /* ghost: offsets of a sub-range */
 int64_t nv_cov;                      /* ghost: positions [0, nv_cov) have been assigned to a bin */
 int64_t nv_calls;                    /* ghost: number of update_bin calls */
 int64_t nv_gb, nv_gp;                /* ghost indices: an arbitrary bin and an arbitrary value position */
+double nv_gv;                        /* ghost: the value at position nv_gp as a double (defined by the precondition; the values are not written) */
 int64_t nv_lo, nv_hi; _Bool nv_seen; /* ghost: the range recorded for bin nv_gb */
 
 /* the comparator of update() is extracted from the real lambda (update_op) and used by the upper_bound contract */
 _Bool update_op(double threshold, double value);
 /* assumed contract of std::upper_bound(first, last, val, comp) on a range partitioned w.r.t. comp(val, elem):
  * returns the partition point; stated at the ghost position nv_gp */
-static double* nv_upper_bound_cmp(double* first, double* last, double val)
+static NV_ELEM* nv_upper_bound_cmp(NV_ELEM* first, NV_ELEM* last, double val)
 {
   int64_t n = last - first, idx = nv_nondet_int64_t();
   __CPROVER_assume(0 <= idx && idx <= n);
   int64_t g = nv_gp - (first - nv_base);
-  if (0 <= g && g < n) __CPROVER_assume((g < idx) ? !update_op(val, first[g]) : update_op(val, first[g]));
+  if (0 <= g && g < n) __CPROVER_assume((g < idx) ? !update_op(val, nv_gv) : update_op(val, nv_gv));
+  return first + idx;
+}
+/* assumed contract of std::lower_bound(first, last, val) (no comparator; val has the element type): the partition
+ * point w.r.t. `elem < val`, stated at the ghost position */
+static NV_ELEM* nv_lower_bound_elem(NV_ELEM* first, NV_ELEM* last, NV_ELEM val)
+{
+  int64_t n = last - first, idx = nv_nondet_int64_t();
+  __CPROVER_assume(0 <= idx && idx <= n);
+  int64_t g = nv_gp - (first - nv_base);
+  if (0 <= g && g < n) __CPROVER_assume((g < idx) ? (first[g] < val) : !(first[g] < val));
   return first + idx;
 }
 /* tensor resize / fill (allocation of the per-bin buffers) */
@@ -30,14 +52,14 @@ static void nv_fill_erased(void) { }
 static int64_t nv_t1d_size(const struct nv_t1d* t) { return t->n; }
 
 
-#define NV_HIST_VALUES (0 <= nv_n && nv_n <= NV_MAXN && __CPROVER_is_fresh(nv_base, (nv_n > 0 ? nv_n : 1) * sizeof(double)))
+#define NV_HIST_VALUES (0 <= nv_n && nv_n <= NV_MAXN && __CPROVER_is_fresh(nv_base, (nv_n > 0 ? nv_n : 1) * sizeof(NV_ELEM)))
 #define NV_IN_BIN(b, v) (((b) == 0 || self->m_thresholds.p[(b) - 1] <= (v)) && ((b) == self->m_thresholds.n || (v) < self->m_thresholds.p[b]))
 
 /* update_bin(begin, end, bin): count = end - begin written to slot bin; mean and median computed over exactly [begin, end);
  * NaN for an empty range; consecutive calls tile the values (coverage ghost) */
 double __CPROVER_uninterpreted_range_mean(int64_t, int64_t), __CPROVER_uninterpreted_range_median(int64_t, int64_t);
-static double nv_mean_range(double* b, double* e, int64_t count) { __CPROVER_assert(count == e - b && count > 0, "mean over a non-empty range with its own length"); return __CPROVER_uninterpreted_range_mean(b - nv_base, e - nv_base); }
-static double nv_median_sorted_range(double* b, double* e) { __CPROVER_assert(b < e, "median of a non-empty range"); return __CPROVER_uninterpreted_range_median(b - nv_base, e - nv_base); }
+static double nv_mean_range(NV_ELEM* b, NV_ELEM* e, int64_t count) { __CPROVER_assert(count == e - b && count > 0, "mean over a non-empty range with its own length"); return __CPROVER_uninterpreted_range_mean(b - nv_base, e - nv_base); }
+static double nv_median_sorted_range(NV_ELEM* b, NV_ELEM* e) { __CPROVER_assert(b < e, "median of a non-empty range"); return __CPROVER_uninterpreted_range_median(b - nv_base, e - nv_base); }
 static double nv_quiet_nan(void) { double x = nv_nondet_double(); __CPROVER_assume(x != x); return x; }
 #define NV_CONTRACT_update_bin \
 __CPROVER_requires(__CPROVER_is_fresh(self, sizeof(*self)) && NV_HIST_VALUES && NV_T1D_OK(self->m_bin_means) && NV_T1I_OK(self->m_bin_counts) && NV_T1D_OK(self->m_bin_medians)) \
@@ -50,7 +72,7 @@ __CPROVER_ensures((end - begin > 0) ==> (NV_SAME(self->m_bin_means.p[bin], __CPR
 __CPROVER_ensures((end - begin == 0) ==> (self->m_bin_means.p[bin] != self->m_bin_means.p[bin] && self->m_bin_medians.p[bin] != self->m_bin_medians.p[bin]))
 
 /* the same function as seen from update(): additionally maintains the coverage ghosts */
-static void update_bin_cov(struct nv_histogram* self, double* begin, double* end, int64_t bin)
+static void update_bin_cov(struct nv_histogram* self, NV_ELEM* begin, NV_ELEM* end, int64_t bin)
 {
   __CPROVER_assert(0 <= bin && bin < self->m_bin_counts.n, "update_bin: bin index inside the per-bin buffers");
   __CPROVER_assert(__CPROVER_same_object(begin, nv_base) && __CPROVER_same_object(end, nv_base) && begin <= end && end <= nv_base + nv_n, "update_bin: a sub-range of the values");
@@ -64,7 +86,7 @@ static void update_bin_cov(struct nv_histogram* self, double* begin, double* end
 #define NV_CONTRACT_histogram_update \
 __CPROVER_requires(__CPROVER_is_fresh(self, sizeof(*self)) && NV_HIST_VALUES && NV_T1D_OK(self->m_thresholds) && self->m_thresholds.n >= 1) \
 __CPROVER_requires(begin == nv_base && end == nv_base + nv_n && nv_cov == 0 && nv_calls == 0 && !nv_seen) \
-__CPROVER_requires(0 <= nv_gb && nv_gb <= self->m_thresholds.n && 0 <= nv_gp && nv_gp < nv_n && nv_base[nv_gp] == nv_base[nv_gp]) \
+__CPROVER_requires(0 <= nv_gb && nv_gb <= self->m_thresholds.n && 0 <= nv_gp && nv_gp < nv_n && nv_gv == NV_TOD(nv_base[nv_gp])) \
 /* values and thresholds are not NaN (they were sorted) */ \
 __CPROVER_requires((nv_gb < self->m_thresholds.n ==> self->m_thresholds.p[nv_gb] == self->m_thresholds.p[nv_gb]) && (nv_gb > 0 ==> self->m_thresholds.p[nv_gb - 1] == self->m_thresholds.p[nv_gb - 1])) \
 __CPROVER_assigns(self->m_bin_means, self->m_bin_counts, self->m_bin_medians, nv_cov, nv_calls, nv_lo, nv_hi, nv_seen) \
@@ -73,15 +95,15 @@ __CPROVER_ensures(self->m_bin_counts.n == self->m_thresholds.n + 1 && self->m_bi
 /* the bins partition the values: consecutive ranges, every bin filled once, everything covered */ \
 __CPROVER_ensures(nv_cov == nv_n && nv_calls == self->m_thresholds.n + 1 && nv_seen && 0 <= nv_lo && nv_lo <= nv_hi && nv_hi <= nv_n) \
 /* a value lies in the range of bin b only if the counting rule puts it there: t_{b-1} <= v < t_b */ \
-__CPROVER_ensures((nv_lo <= nv_gp && nv_gp < nv_hi) ==> NV_IN_BIN(nv_gb, nv_base[nv_gp])) \
+__CPROVER_ensures((nv_lo <= nv_gp && nv_gp < nv_hi) ==> NV_IN_BIN(nv_gb, nv_gv)) \
 __CPROVER_ensures(self->m_bin_counts.p[nv_gb] == nv_hi - nv_lo)
 #define NV_LOOP_histogram_update_1 \
 __CPROVER_assigns(bin, begin, nv_cov, nv_calls, nv_lo, nv_hi, nv_seen, __CPROVER_object_whole(self->m_bin_counts.p), __CPROVER_object_whole(self->m_bin_means.p), __CPROVER_object_whole(self->m_bin_medians.p)) \
 __CPROVER_loop_invariant(0 <= bin && bin <= bins && nv_calls == bin && 0 <= nv_cov && nv_cov <= nv_n && (bin < bins ==> begin == nv_base + nv_cov) && (bin == bins ==> nv_cov == nv_n)) \
 __CPROVER_loop_invariant(nv_seen == (nv_gb < bin) && (nv_seen ==> (0 <= nv_lo && nv_lo <= nv_hi && nv_hi <= nv_cov && self->m_bin_counts.p[nv_gb] == nv_hi - nv_lo))) \
-/* every still-unassigned value is >= the last threshold used; every assigned one is below it */ \
-__CPROVER_loop_invariant((bin > 0 && nv_gp >= nv_cov) ==> (bin - 1 >= self->m_thresholds.n || update_op_inv(self->m_thresholds.p[bin - 1], nv_base[nv_gp]))) \
-__CPROVER_loop_invariant((nv_seen && nv_lo <= nv_gp && nv_gp < nv_hi) ==> NV_IN_BIN(nv_gb, nv_base[nv_gp])) \
+/* when the ghost bin is about to be filled, every still-unassigned value is >= its lower threshold */ \
+__CPROVER_loop_invariant((bin == nv_gb && bin > 0 && nv_gp >= nv_cov) ==> update_op_inv(self->m_thresholds.p[bin - 1], nv_gv)) \
+__CPROVER_loop_invariant((nv_seen && nv_lo <= nv_gp && nv_gp < nv_hi) ==> NV_IN_BIN(nv_gb, nv_gv)) \
 __CPROVER_decreases(bins - bin)
 #define update_op_inv(t, v) ((v) >= (t))
 /* the lambda itself: "value >= threshold goes right" */
